@@ -850,6 +850,13 @@ func run(ctx *Ctx) *Result {
 	}
 
 	if ctx.Replay != "" {
+		var du duCase
+		if err := ReadReplay(ctx.Replay, &du); err == nil && len(du.Objs) > 0 {
+			if prop == "C07" || prop == "C08" {
+				runDeleteUnused(ctx, res, &du)
+			}
+			return res
+		}
 		var c cfgCase
 		if err := ReadReplay(ctx.Replay, &c); err != nil {
 			fmt.Fprintln(os.Stderr, err)
@@ -857,6 +864,9 @@ func run(ctx *Ctx) *Result {
 		}
 		runCase(c)
 		return res
+	}
+	if prop == "C07" || prop == "C08" {
+		runDeleteUnused(ctx, res, nil)
 	}
 	n := ctx.N(600, 20000)
 	if prop == "C10" {
